@@ -221,7 +221,7 @@ theorem writeSegs_sim (pairs : List (WSeg × Option Path)) :
                       St.bind (fun st => st.op (.seek seg.off) seg.ent.fullTarget (fun fs => (fs, true)))
                         (fun ok4 st4 =>
                           if !ok4 then St.ret Solved.fault st4 else
-                          if buf.length < start + seg.len then St.ret Solved.panic st4 else
+                          if buf.length < start + seg.len then St.ret Solved.fault st4 else
                           St.bind (fun st => st.op (.write seg.off ((buf.drop start).take seg.len)) seg.ent.fullTarget
                               (fun fs => (fs.writeAt i seg.off ((buf.drop start).take seg.len), true)))
                             (fun ok5 st5 =>
